@@ -14,9 +14,9 @@ import (
 
 	"github.com/anoideaopen/foundation/core"
 	"github.com/anoideaopen/foundation/core/logger"
-	"github.com/op/go-logging"
 	fpb "github.com/anoideaopen/foundation/proto"
 	"github.com/golang/protobuf/proto" //nolint:staticcheck
+	"github.com/op/go-logging"
 	"github.com/sirupsen/logrus"
 	"google.golang.org/protobuf/encoding/protojson"
 )
@@ -33,17 +33,17 @@ func init() {
 
 // World is a set of channels sharing one ACL service and one cast of users.
 type World struct {
-	ACL      *simpeer.ACL
-	Admin    *simpeer.Identity // OU=admin certificate (may initialise)
-	Robot    *simpeer.Identity // the configured robot
-	Client   *simpeer.Identity // ordinary certificate
-	Issuer   *simpeer.User
-	AdminU   *simpeer.User // the configured admin address
-	FeeSet   *simpeer.User
-	FeeASet  *simpeer.User
-	Users    []*simpeer.User
-	Peers    map[string]*Chan
-	nonce    uint64
+	ACL     *simpeer.ACL
+	Admin   *simpeer.Identity // OU=admin certificate (may initialise)
+	Robot   *simpeer.Identity // the configured robot
+	Client  *simpeer.Identity // ordinary certificate
+	Issuer  *simpeer.User
+	AdminU  *simpeer.User // the configured admin address
+	FeeSet  *simpeer.User
+	FeeASet *simpeer.User
+	Users   []*simpeer.User
+	Peers   map[string]*Chan
+	nonce   uint64
 }
 
 // Chan is one channel with its chaincode instance(s).
@@ -188,9 +188,9 @@ func (c *Chan) Submit(fn string, args []string) (string, *simpeer.Result) {
 
 // Batch is the parsed outcome of batchExecute / executeTasks.
 type Batch struct {
-	Res    *simpeer.Result
-	Resp   *fpb.BatchResponse
-	Event  *fpb.BatchEvent
+	Res   *simpeer.Result
+	Resp  *fpb.BatchResponse
+	Event *fpb.BatchEvent
 }
 
 func (c *Chan) parseBatch(r *simpeer.Result, evName string) *Batch {
